@@ -230,12 +230,15 @@ def gen_scn(rng, prof, hist=lambda k, n=1: None):
         r = rng.random()
         cid = rng.choice(ids)
         c = sh.live.get(cid)
+        if c is None and sh.serial > 0 and rng.random() < prof.get('p_departed', 0.2):
+            # traffic for an id that is not live (never announced, decided or withdrawn): must be ignored
+            emit("%d %s" % (cid, rng.choice(['N late.example.org', 'u ident', 'u', 'n Late', 'U user :Real', 'H', 'H', 'H', 'P :+x acct pw', 'P :+x acct pw', 'd', 'T', 'D', '! timeout']))); continue
         if c is None or r < prof.get('p_reannounce', 0.04):
             if c is not None: oldtags.append((c.tag(), sorted(c.out)))
             emit("%d C %s %d 10.1.1.1 6667" % (cid, rng.choice(ADDRS), rng.choice([1000 + (cid & 0xfff), 0, 65535, 6667]))); continue
         if r < 0.50:
             missing = [k for k, f in (('N', 'H'), ('u', 'I'), ('n', 'N'), ('U', 'U')) if f not in c.got]
-            k = rng.choice(missing * 3 + ['N', 'd', 'u', 'ue', 'n', 'U', 'H', 'P', 'P', 'P'] + prof.get('extra_kinds', []))
+            k = rng.choice(missing * prof.get('w_missing', 3) + ['N', 'd', 'u', 'ue', 'n', 'U', 'H'] + ['P'] * prof.get('w_pass', 3) + prof.get('extra_kinds', []))
             if k == 'N': emit("%d N %s" % (cid, rng.choice(['host.example.org', 'h' * 62, 'h' * 63, 'h' * 64, 'a', 'x.example.org'])))
             elif k == 'd': emit("%d d" % cid)
             elif k == 'u': emit("%d u %s" % (cid, rng.choice(['ident', '~untr', 'abcdefghijkl', 'abcdefghij', 'ab'])))
@@ -595,7 +598,8 @@ def standard_run(chk, profile, nq, nt, extra=()):
         return None
     drv, impl = env
     n = nq if chk.tier == "quick" else nt
-    scns = corpus() + [gen_scn(chk.rng, profile, chk.hist) for _ in range(n)]
+    intense = dict(profile, maxcli=1, minlen=8, maxlen=28, w_pass=6, w_missing=1, p_good_reply=0.85, p_departed=0.35, p_xq=1.0, nsv=[1, 2, 2, 3], timeouts=profile.get('timeouts', [0, 0, 3600]))
+    scns = corpus() + [gen_scn(chk.rng, profile if i % 3 else intense, chk.hist) for i in range(n)]
     ms = run_model(drv, scns)
     ds = run_daemons(impl, scns)
     chk.cov["samples"] = [scns[0].describe().split("\n"), scns[len(corpus()) + 1].describe().split("\n")[:25]]
